@@ -17,6 +17,7 @@ MD_IDENT = (
     "<core::mem::manually_drop::ManuallyDrop<T> as core::ops::deref::DerefMut>::deref_mut",
     "core::ptr::slice_from_raw_parts_mut",
     "core::ptr::slice_from_raw_parts",
+    "<core::ptr::non_null::NonNull<[T]>>::slice_from_raw_parts",
     "<core::ptr::non_null::NonNull<T> as unsize::CoerciblePtr<U>>::replace_ptr",
     "<*mut T as unsize::CoerciblePtr<U>>::replace_ptr",
     "core::ptr::read",
